@@ -1,4 +1,367 @@
+//! fam-cw4: exhaustive exploration of cw4-group and cw4-stake for C09, C10, C14.
+//!   fam-cw4 C09|C10|C14 --tier quick|thorough      fam-cw4 replay <file>
+mod c09;
+mod c10;
+mod c14;
+mod util;
+
+use mc::report::{load_replay, run_replay, ReplayFile};
+use mc::{Bounds, Known, Report, RunStats};
+use rayon::prelude::*;
+use util::H0;
+
+/// one configuration of one of the five model types, with its depth bound
+enum Job {
+    G9(c09::GroupHist, Option<usize>),
+    S9(c09::StakeHist, Option<usize>),
+    S10(c10::StakeModel, Option<usize>),
+    G14(c14::GroupAdmin, Option<usize>),
+    S14(c14::StakeAdmin, Option<usize>),
+}
+
+impl Job {
+    fn name(&self) -> String {
+        use mc::Model;
+        match self {
+            Job::G9(m, _) => m.name(),
+            Job::S9(m, _) => m.name(),
+            Job::S10(m, _) => m.name(),
+            Job::G14(m, _) => m.name(),
+            Job::S14(m, _) => m.name(),
+        }
+    }
+    fn run(&self, known: &Known, thorough: bool, seed: u64) -> RunStats {
+        let b = |d: &Option<usize>| Bounds {
+            max_depth: *d,
+            max_states: 8_000_000,
+            max_secs: std::env::var("CW4_MAX_SECS").ok().and_then(|x| x.parse().ok()).unwrap_or(if thorough { 1500.0 } else { 120.0 }),
+        };
+        match self {
+            Job::G9(m, d) => mc::bfs(m, &b(d), known, seed),
+            Job::S9(m, d) => mc::bfs(m, &b(d), known, seed),
+            Job::S10(m, d) => mc::bfs(m, &b(d), known, seed),
+            Job::G14(m, d) => mc::bfs(m, &b(d), known, seed),
+            Job::S14(m, d) => mc::bfs(m, &b(d), known, seed),
+        }
+    }
+    fn replay(&self, rf: &ReplayFile) -> i32 {
+        match self {
+            Job::G9(m, _) => run_replay(m, rf),
+            Job::S9(m, _) => run_replay(m, rf),
+            Job::S10(m, _) => run_replay(m, rf),
+            Job::G14(m, _) => run_replay(m, rf),
+            Job::S14(m, _) => run_replay(m, rf),
+        }
+    }
+}
+
+fn c09_jobs(thorough: bool) -> Vec<Job> {
+    let mut out = vec![];
+    let g = |name: &str, names: Vec<&'static str>, n: u8, weights: Vec<u64>, initial: Vec<(u8, u64)>, blocks: u64, dup: bool| {
+        Job::G9(
+            c09::GroupHist {
+                cfg: c09::GroupCfg {
+                    name: name.to_string(),
+                    names,
+                    n_members: n,
+                    weights,
+                    max_add: 2,
+                    max_remove: 2,
+                    initial,
+                    dup_add: dup,
+                    hmax: H0 + blocks - 1,
+                },
+                memo: Default::default(),
+            },
+            None,
+        )
+    };
+    let ab = || vec!["A", "B", "D"];
+    let abc = || vec!["A", "B", "C", "D"];
+    if thorough {
+        out.push(g("C09/group/init[]/members{A,B}/weights{0,1,2}/4 blocks", ab(), 2, vec![0, 1, 2], vec![], 4, true));
+        out.push(g("C09/group/init[A:1,B:2]/members{A,B,C}/weights{0,1}/3 blocks", abc(), 3, vec![0, 1], vec![(0, 1), (1, 2)], 3, false));
+        out.push(g("C09/group/init[]/members{A,B,C}/weights{0,1,2}/2 blocks", abc(), 3, vec![0, 1, 2], vec![], 2, true));
+        out.push(g("C09/group/init[A:1]/members{A,B}/weights{0,1,2}/3 blocks", ab(), 2, vec![0, 1, 2], vec![(0, 1)], 3, false));
+        out.push(g("C09/group/init[A:0]/members{A,B}/weights{0,1,2}/3 blocks", ab(), 2, vec![0, 1, 2], vec![(0, 0)], 3, false));
+        out.push(g("C09/group/init[A:1]/members{A,B}/weights{1,2^64-1}/3 blocks", ab(), 2, vec![1, u64::MAX], vec![(0, 1)], 3, true));
+    } else {
+        out.push(g("C09/group/init[]/members{A,B}/weights{0,1,2}/3 blocks", ab(), 2, vec![0, 1, 2], vec![], 3, true));
+        out.push(g("C09/group/init[A:1,B:2]/members{A,B,C}/weights{0,1}/2 blocks", abc(), 3, vec![0, 1], vec![(0, 1), (1, 2)], 2, false));
+        out.push(g("C09/group/init[A:1]/members{A,B}/weights{0,1,2}/2 blocks", ab(), 2, vec![0, 1, 2], vec![(0, 1)], 2, false));
+        out.push(g("C09/group/init[A:0]/members{A,B}/weights{0,1,2}/2 blocks", ab(), 2, vec![0, 1, 2], vec![(0, 0)], 2, false));
+        out.push(g("C09/group/init[A:1]/members{A,B}/weights{1,2^64-1}/2 blocks", ab(), 2, vec![1, u64::MAX], vec![(0, 1)], 2, true));
+    }
+    // repeated initial members: instantiation is expected to be refused; if it is not, the invariants decide
+    out.push(g("C09/group/init[A:1,A:2] (repeated member)", ab(), 2, vec![0, 1], vec![(0, 1), (0, 2)], 1, false));
+    out.push(g("C09/group/init[A:1,B:1,A:1] (repeated member)", ab(), 2, vec![0, 1], vec![(0, 1), (1, 1), (0, 1)], 1, false));
+    let s = |tpw: u128, min_bond: u128, funds: Vec<u128>, blocks: u64| {
+        Job::S9(
+            c09::StakeHist {
+                cfg: c09::StakeCfg {
+                    name: format!("C09/stake/native/tokens_per_weight {tpw}/min_bond {min_bond}/funds {:?}/{blocks} blocks", funds),
+                    tpw,
+                    min_bond,
+                    funds,
+                    amounts: vec![1, 2, 3],
+                    hmax: H0 + blocks - 1,
+                },
+                memo: Default::default(),
+            },
+            None,
+        )
+    };
+    if thorough {
+        for tpw in [1, 2] {
+            for mb in [1, 2] {
+                out.push(s(tpw, mb, vec![3, 3], 4));
+            }
+        }
+    } else {
+        out.push(s(1, 1, vec![3, 2], 3));
+        out.push(s(2, 2, vec![3, 2], 3));
+        out.push(s(2, 1, vec![3, 1], 3));
+    }
+    out
+}
+
+fn c10_jobs(thorough: bool) -> Vec<Job> {
+    use c10::{Cfg, Period, StakeModel};
+    let mut out = vec![];
+    let mk = |cw20: bool, tpw: u128, mb: u128, period: Period, funds: [u128; 3], bond: Vec<u128>, unbond: Vec<u128>, blocks: u64, adv: bool, tag: &str, depth: Option<usize>| {
+        let p = match period {
+            Period::Height(h) => format!("Height({h})"),
+            Period::Time(t) => format!("Time({t}s)"),
+        };
+        Job::S10(
+            StakeModel {
+                cfg: Cfg {
+                    name: format!(
+                        "C10/{}/tokens_per_weight {tpw}/min_bond {mb}/unbonding {p}/funds {:?}/{blocks} blocks/{tag}",
+                        if cw20 { "cw20" } else { "native" },
+                        funds
+                    ),
+                    cw20,
+                    tpw,
+                    min_bond: mb,
+                    period,
+                    funds,
+                    bond_amts: bond,
+                    unbond_amts: unbond,
+                    hmax: H0 + blocks - 1,
+                    adversarial: adv,
+                },
+            },
+            depth,
+        )
+    };
+    let hp = Period::Height(2);
+    let tp = Period::Time(2 * util::DT);
+    if thorough {
+        for cw20 in [false, true] {
+            for tpw in [1u128, 2, 3] {
+                for mb in [0u128, 1, 2, 5] {
+                    for period in [hp, tp] {
+                        // enough funds to cross min_bond and a weight step; the donor gives once
+                        let f1 = std::cmp::max(3, std::cmp::max(mb, tpw) + 1);
+                        let bond = if mb >= 5 { vec![1, 2, 3, 5] } else { vec![1, 2, 3] };
+                        out.push(mk(cw20, tpw, mb, period, [f1, 2, 1], bond, vec![0, 1, 2, 3], 4, true, "closed", None));
+                    }
+                }
+            }
+        }
+    } else {
+        out.push(mk(false, 1, 0, hp, [3, 1, 1], vec![1, 2, 3], vec![0, 1, 2, 3], 4, true, "closed", None));
+        out.push(mk(false, 2, 2, tp, [3, 2, 0], vec![1, 2, 3], vec![1, 2, 3], 4, true, "closed", None));
+        out.push(mk(true, 1, 1, hp, [3, 1, 1], vec![1, 2, 3], vec![0, 1, 2, 3], 4, true, "closed", None));
+        out.push(mk(true, 3, 2, tp, [4, 1, 0], vec![1, 2, 3], vec![0, 1, 3], 4, true, "closed", None));
+        out.push(mk(false, 3, 5, hp, [6, 1, 0], vec![2, 3, 5], vec![1, 3], 4, false, "closed", None));
+    }
+    // boundary stakes: quotients around 2^64 and amounts around 2^128
+    let p64: u128 = 1 << 64;
+    let depth = Some(if thorough { 7 } else { 5 });
+    for cw20 in [false, true] {
+        for tpw in if thorough { vec![1u128, 2, 3] } else { vec![1u128, 2] } {
+            if !thorough && cw20 && tpw == 2 {
+                continue;
+            }
+            let q = p64 * tpw;
+            out.push(mk(
+                cw20,
+                tpw,
+                1,
+                hp,
+                [q + 3, q, 0],
+                vec![q + 3, q, q - 1, 1, 3],
+                vec![1, 3, q],
+                3,
+                false,
+                "edge: stakes around 2^64*tokens_per_weight",
+                depth,
+            ));
+        }
+        out.push(mk(
+            cw20,
+            1,
+            1,
+            hp,
+            [u128::MAX, 0, 0],
+            vec![u128::MAX, u128::MAX - 1, 1],
+            vec![1, u128::MAX],
+            3,
+            false,
+            "edge: stakes around 2^128",
+            depth,
+        ));
+    }
+    out
+}
+
+fn c14_jobs(thorough: bool) -> Vec<Job> {
+    let mut out = vec![];
+    let g = |name: &str, admin: Option<u8>, initial: Vec<(u8, u64)>, n: u8, weights: Vec<u64>, removes: Vec<Vec<u8>>, full: Vec<u8>, blocks: u64| {
+        Job::G14(
+            c14::GroupAdmin {
+                cfg: c14::GroupCfg {
+                    name: name.to_string(),
+                    admin,
+                    initial,
+                    add_lists: c09::add_lists(n, 2, &weights),
+                    remove_lists: removes,
+                    full_callers: full,
+                    hmax: H0 + blocks - 1,
+                },
+            },
+            None,
+        )
+    };
+    // remove lists over {A,B} plus a non-member C and a repeated address
+    let rem2 = || vec![vec![], vec![0], vec![1], vec![0, 1], vec![2], vec![0, 2], vec![0, 0], vec![1, 0]];
+    let rem3 = || {
+        let mut r = c09::subsets(3, 2);
+        r.push(vec![0, 0]);
+        r.push(vec![2, 0]);
+        r
+    };
+    if thorough {
+        out.push(g("C14/group/admin AD/init[]/members{A,B,C}/weights{0,1,2}/2 blocks", Some(0), vec![], 3, vec![0, 1, 2], rem3(), vec![0, 1], 2));
+        out.push(g("C14/group/admin AD/init[A:1,B:2]/members{A,B}/weights{0,1,2}/2 blocks", Some(0), vec![(0, 1), (1, 2)], 2, vec![0, 1, 2], rem2(), vec![0, 1, 2], 2));
+        out.push(g("C14/group/no admin/init[A:1,B:2]/members{A,B}/weights{0,1,2}/2 blocks", None, vec![(0, 1), (1, 2)], 2, vec![0, 1, 2], rem2(), vec![0, 1, 2], 2));
+    } else {
+        out.push(g("C14/group/admin AD/init[]/members{A,B}/weights{0,1,2}/1 block", Some(0), vec![], 2, vec![0, 1, 2], rem2(), vec![0, 1], 1));
+        out.push(g("C14/group/admin AD/init[A:1,B:2]/members{A,B}/weights{1,2}/2 blocks", Some(0), vec![(0, 1), (1, 2)], 2, vec![1, 2], rem2(), vec![0], 2));
+        out.push(g("C14/group/no admin/init[A:1,B:2]/members{A,B}/weights{0,1,2}/1 block", None, vec![(0, 1), (1, 2)], 2, vec![0, 1, 2], rem2(), vec![0, 1, 2], 1));
+    }
+    let s = |admin: Option<u8>, tpw: u128, mb: u128, funds: Vec<u128>, amounts: Vec<u128>, blocks: u64| {
+        Job::S14(
+            c14::StakeAdmin {
+                cfg: c14::StakeCfg {
+                    name: format!(
+                        "C14/stake/{}/tokens_per_weight {tpw}/min_bond {mb}/funds {:?}/{blocks} blocks",
+                        if admin.is_some() { "admin AD" } else { "no admin" },
+                        funds
+                    ),
+                    admin,
+                    tpw,
+                    min_bond: mb,
+                    funds,
+                    amounts,
+                    hmax: H0 + blocks - 1,
+                },
+            },
+            None,
+        )
+    };
+    if thorough {
+        out.push(s(Some(0), 1, 1, vec![3, 2], vec![1, 2, 3], 2));
+        out.push(s(Some(0), 2, 2, vec![4, 2], vec![1, 2, 3], 2));
+        out.push(s(Some(0), 2, 3, vec![4, 2], vec![1, 2], 2));
+        out.push(s(None, 2, 1, vec![3, 2], vec![1, 2], 1));
+    } else {
+        out.push(s(Some(0), 1, 1, vec![2, 1], vec![1, 2], 1));
+        out.push(s(Some(0), 2, 2, vec![3, 2], vec![1, 2], 1));
+        out.push(s(None, 2, 1, vec![2, 1], vec![1, 2], 1));
+    }
+    out
+}
+
+fn jobs(prop: &str, thorough: bool) -> Vec<Job> {
+    match prop {
+        "C09" => c09_jobs(thorough),
+        "C10" => c10_jobs(thorough),
+        "C14" => c14_jobs(thorough),
+        _ => vec![],
+    }
+}
+
+fn describe(prop: &str) -> (&'static str, &'static str, &'static str) {
+    match prop {
+        "C09" => (
+            "cw4-group: UpdateMembers with every add list over the member alphabet x weight alphabet of size <= 2 combined with every remove list of size <= 2 (overlaps, re-adds, re-weights, removal of non-members, zero weights, empty update, a repeated address in add and in remove, weights 2^64-1), any number of updates per block, AdvanceBlock up to the block bound; initial lists [], [A:1], [A:0], [A:1,B:2] and lists with a repeated member. cw4-stake (kernel + bank, native denom): Bond/Unbond of 1..3 tokens by two users, Claim, AdvanceBlock.",
+            "reference = membership at the START of every block since instantiation. After every step, for every probe address (members and a never-member) and every height h in {0, H0-1, H0 .. now+2}: Member{addr,at_height:h} == reference (None up to and including the instantiation height, unaffected by changes in block h or later, current value for future heights); Member{addr} == current; cw4-group TotalWeight{at_height:h} likewise; TotalWeight == sum of ListMembers paged by 2; listing == true membership; raw cw4::TOTAL_KEY and cw4::member_key(addr) decode to the smart-query values. For cw4-stake the history is built from the weights the contract reported when they were current (whether they are the right function of the stake is C10).",
+            "the clock is capped (blocks per configuration in its name) and weights are finite, so every configuration runs to a FIXPOINT: all histories over the alphabet within the block bound, any number of updates per block",
+        ),
+        "C10" => (
+            "Bond with funds {1,2,3 of the stake denom, another denom, two denoms, none}; cw20 Send{Bond} through the configured real cw20-base token and through a foreign one; Receive sent directly by a user (for himself / for another user); Unbond {0,1,2,3, stake+1}; Claim; a donation to the contract; AdvanceBlock (+1 block, +5 s). Configurations: native / cw20 stake token, tokens_per_weight {1,2,3}, min_bond {0,1,2,5}, unbonding Height(2) / Time(10 s), two stakers with finite funds and a donor. Edge configurations: bonds of 2^64*tpw-1, 2^64*tpw, 2^64*tpw+3, 2^128-1, 2^128-2.",
+            "reference ledger {stake[u], claims[u]=[(amount, unbond block/time + period)]} stepped on accepted calls. State: real holdings of the contract (kernel bank / real cw20 balance) >= sum stakes + sum unreleased claims, == when nobody donated; Staked and Claims queries == ledger; Member{u} == Some(floor(stake/tokens_per_weight)) compared in 128 bits iff stake >= max(min_bond,1) else None; TotalWeight == sum of listed weights; listing == Member queries. Transition: accepted bond with anything but exactly the configured token, foreign-token Send{Bond} or user-sent Receive accepted => violation; Unbond above the stake accepted => violation; an accepted Claim moves exactly the sum of the caller's claims whose release point is reached (computed by the reference) from the contract to the caller and removes them, nobody else's balance moves; every other accepted call moves exactly its own amount; a refused call and a block advance change nothing.",
+            "closed configurations (finite funds, capped clock, zero-unbond offered once per pending zero claim) run to FIXPOINT; edge configurations to the stated depth",
+        ),
+        "C14" => (
+            "cw4-group: UpdateAdmin{None|AD|AD2}, AddHook/RemoveHook{H1,H2}, UpdateMembers (every add list of size <= 2 over members x weights, remove lists incl. overlap with add, a non-member, a repeated address; re-weight to the same value) by the admin, the other admin candidate and a stranger; AdvanceBlock. cw4-stake (native denom): the same admin/hook calls plus Bond/Unbond by two users.",
+            "reference {admin, hooks, members} stepped on accepted calls of the reference admin. A call by anyone else, and every call once the admin is None, leaves the Admin, Hooks and (cw4-group) ListMembers queries unchanged; after an admin's call they equal the reference. Every accepted call whose effect changes some weight returns exactly one member_changed_hook message per hook registered at that time; every notification goes to a registered hook, carries no funds, names only addresses the call listed (the bonding sender for cw4-stake); folding its diffs per address in order: first old == weight before the call, each new == next old, last new == weight after the call; every address whose weight changed has an entry. cw4-stake: a bond/unbond that changes no weight sends no notification.",
+            "all configurations run to FIXPOINT (single block or two blocks; finite weights, hooks, admins, funds)",
+        ),
+        _ => ("", "", ""),
+    }
+}
+
+fn run(prop: &str, tier: &str) -> i32 {
+    let thorough = tier == "thorough";
+    let js = jobs(prop, thorough);
+    if js.is_empty() {
+        eprintln!("fam-cw4 does not serve {prop}");
+        return 2;
+    }
+    let known = Known::load(prop);
+    let mut rep = Report::new(prop, tier, "cw4");
+    let (alpha, oracle, bounds) = describe(prop);
+    rep.alphabet = alpha.into();
+    rep.oracle = oracle.into();
+    rep.bounds = bounds.into();
+    rep.assumptions = vec![
+        "every call is an atomic transaction on the real entry points compiled from /repo (a panic is a failed transaction)".into(),
+        "weights, amounts and funds come from small alphabets forced to collide plus the boundary values named in the alphabet, not all of u64/u128".into(),
+        "addresses are MockApi bech32 addresses; block time advances 5 s per block".into(),
+        "C10/C09-stake: message routing, the bank and sub-message atomicity are the kernel's (cross-validated against cw-multi-test by kernel-diff)".into(),
+    ];
+    let seed = mc::report::seed();
+    let runs: Vec<RunStats> = js.par_iter().map(|j| j.run(&known, thorough, seed)).collect();
+    rep.runs = runs;
+    rep.finish()
+}
+
 fn main() {
-    eprintln!("fam-cw4: not built yet");
-    std::process::exit(2);
+    mc::world::silence_panics();
+    let a = mc::parse_args();
+    let code = if a.cmd == "replay" {
+        let rf = load_replay(a.path.as_deref().unwrap_or(""));
+        let all = jobs(&rf.property, true).into_iter().chain(jobs(&rf.property, false));
+        let mut found = None;
+        for j in all {
+            if j.name() == rf.config {
+                found = Some(j);
+                break;
+            }
+        }
+        match found {
+            Some(j) => j.replay(&rf),
+            None => {
+                eprintln!("machinery error: unknown config {}", rf.config);
+                2
+            }
+        }
+    } else {
+        run(&a.cmd, &a.tier)
+    };
+    std::process::exit(code);
 }
